@@ -45,6 +45,10 @@ T = {
     text="CNF: for cnf / cnf_as_set / PolarityCNFizer on generated QF formulas (constants, ITE, IFF, shared sub-formulas, real theory atoms) the result must be a conjunction of clauses of literals and, for every explored interpretation of the input's symbols, the clause set restricted by that interpretation must be satisfiable over the fresh symbols iff the interpretation satisfies the input (exact DPLL = all values of the introduced symbols). Ackermann: no application may remain; models of the input extended by ack := value of the application must satisfy the output; every satisfying assignment of the output must yield (tables read off the constants, or any table among all) functions under which the input holds.",
     note="Trusted: vf/refsem.py, the DPLL in vf/checks/c11.py; Ackermann inputs restricted to function symbols over carriers of size <= 4 so all tables can be enumerated.",
     technique="property-based model-by-model checking with exhaustive enumeration of the auxiliary symbols / function tables"),
+ "C07": dict(level="exploration", design="4/C07",
+    text="Generated formulas of every theory with hostile symbol names, extreme constants, nested array values, finite and Int/Real binders, UF, plain and parametric uninterpreted sorts are printed by to_smtlib / SmtPrinter / SmtDagPrinter / smtlibscript_from_formula().serialize and by multi-assert SmtLibScripts (one printer instance for several formulas), in tree and let-DAG form. An independent strict SMT-LIB 2.6 reader (no pysmt import) must accept the text (lexicon, syntax, declared-before-use and once, sorts) and its elaboration must have the reference value of the original formula under all (<=64) or 8 sampled interpretations.",
+    note="Trusted: vf/smtref.py (independent reader) and vf/refsem.py. Int/Real binders are compared under a finite binder window on both sides (sound for two renderings of one formula). Names containing | or backslash are outside the domain.",
+    technique="differential property-based testing of the printers against an independent SMT-LIB reader + reference evaluator"),
 }
 
 checks, na = [], []
